@@ -514,7 +514,7 @@ def block_diagonalize(
             if index[0] not in to_keep:
                 return x
             if isinstance(x, sympy.MatrixBase):
-                return x.multiply_elementwise(to_keep[index[0]])
+                return x.multiply_elementwise(_sympy_mask(to_keep[index[0]], x.shape))
             if sparse.issparse(x):
                 return x.multiply(to_keep[index[0]])
             return x * to_keep[index[0]]
@@ -524,7 +524,9 @@ def block_diagonalize(
                 return zero
             x = x[index] if isinstance(x, BlockSeries) else x
             if isinstance(x, sympy.MatrixBase):
-                return x.multiply_elementwise(to_eliminate[index[0]])
+                return x.multiply_elementwise(
+                    _sympy_mask(to_eliminate[index[0]], x.shape)
+                )
             if sparse.issparse(x):
                 return x.multiply(to_eliminate[index[0]])
             return x * to_eliminate[index[0]]
@@ -1567,7 +1569,8 @@ def _extract_diagonal(
     diags = []
     for block in h_0:
         if block is zero or block is np.ma.masked:
-            diags.append(np.array(0))
+            # Keep the eigenvalues of a symbolic problem symbolic.
+            diags.append(np.array(sympy.S.Zero if is_sympy and not operators else 0))
             continue
         eigs = block.diagonal()
         if is_sympy:
@@ -1578,6 +1581,17 @@ def _extract_diagonal(
         diags.append(eigs)
 
     return tuple(diags)
+
+
+def _sympy_mask(mask: sympy.MatrixBase, shape: tuple[int, int]) -> sympy.MatrixBase:
+    """Broadcast an elementwise sympy mask to the given shape.
+
+    The mask of a block whose unperturbed Hamiltonian vanishes is 1x1 regardless of
+    the block size, so it needs to be broadcast.
+    """
+    if mask.shape == shape:
+        return mask
+    return sympy.Matrix(*shape, lambda i, j: mask[0, 0])
 
 
 def _convert_if_zero(value: Any, atol: float = 1e-12):
